@@ -1,5 +1,5 @@
 """Rule registry: name -> callable(ctx, prop) -> RuleResult | [RuleResult]."""
-from . import trav, exh, backend, names, fields, compiler, memory, purity, determinism, patterns, unify, provenance, simplify, frontend, forwarding, guard, layer, instr
+from . import trav, exh, backend, names, fields, compiler, memory, purity, determinism, patterns, unify, provenance, simplify, frontend, forwarding, guard, layer, instr, predicates
 
 
 def _trav_scoped(classes, name):
@@ -69,6 +69,7 @@ RULES = {
     "NOPROV": provenance.rule_noprov,
     "INSTRLINT": instr.rule_instrlint,
     "INSTRSPEC": instr.rule_instrspec,
+    "PREDSPEC": predicates.rule_predspec,
     "GUARD": guard.rule_guard,
     "LAYER": layer.rule_layer,
     "VERDICT": layer.rule_verdict,
